@@ -216,6 +216,16 @@ def setStride (step : Nat) : Nat → List α → List α → List α
 def strideSetE (b : List α) (start step : Nat) (vals : List α) : R (List α) :=
   if (getStride step start b).length = vals.length then .ok (setStride step start b vals) else .error .value
 
+/-- `b ** e` for ints (the translator shows `e ≥ 0`; a negative exponent would give a float) -/
+def pow (b e : Int) : Int := b ^ e.toNat
+
+/-- `while cond: body` on the tuple of the variables the body assigns, for at most `fuel` iterations: `Err.fuel` when
+    the loop has not stopped by then (a non-terminating loop shows up as this error; a tie theorem that proves
+    `= .ok …` on a domain proves termination within the fuel there) -/
+def whileLoop {σ : Type} (cond : σ → Bool) (body : σ → σ) : Nat → σ → R σ
+  | 0, _ => .error .fuel
+  | fuel + 1, s => if cond s then whileLoop cond body fuel (body s) else .ok s
+
 /-- `sum(t)` -/
 def sum (t : List Int) : Int := t.foldl (· + ·) 0
 
